@@ -179,7 +179,7 @@ class UniSuite(Suite):
 
 
 # ================================================================================================ JSON deserialization
-READER_KINDS = [0, 1, 2, 3, 4, 5, 6, 7, 8]
+READER_KINDS = [0, 1, 2, 3, 4, 5, 6, 7, 8, 9]
 
 
 class JsonValidSuite(Suite):
@@ -207,7 +207,7 @@ class JsonValidSuite(Suite):
 
     def canon_m(self, case, m):
         rk = int(case.line.split(" ")[2]) % 100
-        if rk not in (0, 5, 8):
+        if rk not in (0, 5, 8, 9):
             return " ".join(m.split(" ")[:2])
         return m
 
@@ -608,7 +608,7 @@ class MpDeSuite(Suite):
         for i in range(n):
             v = mpack.gen_value(rng, dup_keys=True)
             data = mpack.encode(v, rng)
-            rk = rng.choice([0, 2, 3, 4, 5, 7, 8]) + (100 if rng.random() < 0.2 else 0)
+            rk = rng.choice([0, 2, 3, 4, 5, 7, 8, 9]) + (100 if rng.random() < 0.2 else 0)
             cases.append(Case("%s %d %d - %s" % (self.op(), rk, 20, hx(data)), kind="valid", value=v, data=data))
             if len(data) <= 200 and rng.random() < 0.35:
                 for cut in range(len(data)):
@@ -648,7 +648,7 @@ class MpDeSuite(Suite):
     def canon_m(self, case, m):
         rk = int(case.line.split(" ")[1]) % 100
         f = m.split(" ")
-        if rk not in (0, 5, 8) and len(f) >= 3:
+        if rk not in (0, 5, 8, 9) and len(f) >= 3:
             f[2] = "*"
         return " ".join(self.nan_tree(f))
 
@@ -832,7 +832,7 @@ class JsonAnySuite(Suite):
             cases.append(Case("jsonde %d 0 %d %s" % (cb, lim, hx(t)), text=t, lim=lim, rk=0, gid=i))
             if i % 7 == 0:
                 # source independence: the same bytes through other reader kinds
-                for rk in rng.sample([1, 2, 3, 4, 5, 6, 7, 8] + ([20, 21, 22, 23] * 2 if self.cfg.get("arduino") else []), 3):
+                for rk in rng.sample([1, 2, 3, 4, 5, 6, 7, 8, 9] + ([20, 21, 22, 23] * 2 if self.cfg.get("arduino") else []), 3):
                     cases.append(Case("jsonde %d %d %d %s" % (cb, rk, lim, hx(t)), text=t, lim=lim, rk=rk, gid=i))
         return cases
 
@@ -843,7 +843,7 @@ class JsonAnySuite(Suite):
         return h
 
     def canon_m(self, case, m):
-        if case.meta["rk"] not in (0, 5, 8, 21):
+        if case.meta["rk"] not in (0, 5, 8, 9, 21):
             return " ".join(m.split(" ")[:2])
         return m
 
@@ -1073,11 +1073,20 @@ class FilterSuite(Suite):
             return (sig, o[1] + " on " + case.line[:120])
         f = h.split(" ")
         m = {x.split("=")[0]: int(x.split("=")[1]) for x in f if x.startswith("req") and "=" in x}
+        u = [x for x in f if x.startswith("requ:")]
+        ucode = u[0].split(":")[1] if u else ("Ok" if m.get("requc", 0) == 0 else "error") if "requc" in m else "?"
+        after_error = ":unfiltered-run-stopped-at-an-error" if ucode not in ("Ok", "?") else ""
+        # memory clause, three measures from the allocator ledger: high-water mark of bytes held, bytes held at the end, total bytes requested
+        if "reqpk" in m and m["reqpk"] > m["reqpku"]:
+            return ("filter:memory" + after_error, "filtered run (%s) held up to %d bytes, unfiltered run (%s) %d bytes: %s" % (f[0], m["reqpk"], ucode, m["reqpku"], case.line[:140]))
+        if "reqfin" in m and m["reqfin"] > m["reqfinu"]:
+            return ("filter:memory" + after_error, "filtered run (%s) ends holding %d bytes, unfiltered run (%s) %d bytes: %s" % (f[0], m["reqfin"], ucode, m["reqfinu"], case.line[:140]))
         if "req" in m and "requ" in m and m["req"] > m["requ"]:
-            u = [x for x in f if x.startswith("requ:")]
-            ucode = u[0].split(":")[1] if u else "?"
-            sig = "filter:memory" + (":unfiltered-run-stopped-at-an-error" if ucode not in ("Ok", "?") else "")
-            return (sig, "filtered run (%s) requested %d bytes, unfiltered run (%s) %d bytes: %s" % (f[0], m["req"], ucode, m["requ"], case.line[:140]))
+            sig = "filter:memory" + after_error
+            if not after_error and "reqpk" in m:
+                # neither the peak nor the final amount is exceeded: only the running total of requests is
+                sig = "filter:memory:total-of-requests-only"
+            return (sig, "filtered run (%s) requested %d bytes in total, unfiltered run (%s) %d bytes: %s" % (f[0], m["req"], ucode, m["requ"], case.line[:140]))
         if case.meta["fmt"] == "j" and case.meta["flt"] == b"true":
             # the filter `true` is the identity on every input, malformed included (both results from the implementation)
             u = [x for x in f if x.startswith("requ:")]
@@ -1168,6 +1177,52 @@ class DepthSuite(Suite):
                         if flt != "-" and kind in (3, 7):
                             continue
                         cases.append(Case("depth %s %d %d %s %s" % (fmt, cb, L, flt, hx(txt)), L=L, d=d, kind=kind, fmt=fmt, closed=kind in (0, 1, 4, 5, 7), flt=flt))
+        # bushy documents: many siblings (empty containers included) at every level, so that the limit must be a function of the depth and
+        # not of how many containers were met before; real depth computed by the generator; filters that keep, discard or descend
+        nb = 1500 if tier == "quick" else 60000
+        filters = [b'{"keep":true}', b'{"skip":false,"*":true}', b"[false]", b"true", b'{"*":[{"keep":true}]}', b'[{"a":[true]}]', b"false", b'{"zz":{"zz":true}}']
+        for _ in range(nb):
+            target = rng.choice([1, 2, 3, 4, 5, 6, 8, 11, 12])
+
+            def tree(depth_left, wide):
+                """returns (node, depth) ; node = ('a', [..]) | ('o', [(key, node)..]) | ('s',)"""
+                if depth_left == 0 or (not wide and rng.random() < 0.15):
+                    return ("s",), 0
+                n = rng.choice([0, 0, 1, 2, 3, 5, 9]) if wide else rng.choice([0, 1, 2])
+                kids = []
+                dmax = 0
+                deep_at = rng.randrange(n) if n else -1
+                for i in range(n):
+                    k, dk = tree(depth_left - 1, wide and i == deep_at) if (i == deep_at or rng.random() < 0.3) else tree(min(depth_left - 1, rng.choice([0, 1, 1, 2])), False)
+                    kids.append(k); dmax = max(dmax, dk)
+                if rng.random() < 0.5:
+                    return ("a", kids), 1 + dmax
+                return ("o", [(rng.choice([b"skip", b"keep", b"a", b"zz", b"k%d" % i]), k) for i, k in enumerate(kids)]), 1 + dmax
+
+            node, d = tree(target, True)
+
+            def js(n):
+                if n[0] == "s":
+                    return rng.choice([b"1", b'"x"', b"null", b"-2.5", b"true"])
+                if n[0] == "a":
+                    return b"[" + b",".join(js(k) for k in n[1]) + b"]"
+                return b"{" + b",".join(b'"' + k + b'":' + js(v) for k, v in n[1]) + b"}"
+
+            def mp(n):
+                if n[0] == "s":
+                    return rng.choice([b"\x01", b"\xa1x", b"\xc0", b"\xca\xc0\x20\x00\x00", b"\xc3"])
+                cnt = len(n[1])
+                if n[0] == "a":
+                    hd = rng.choice([bytes([0x90 | cnt]), b"\xdc" + cnt.to_bytes(2, "big"), b"\xdd" + cnt.to_bytes(4, "big")])
+                    return hd + b"".join(mp(k) for k in n[1])
+                hd = rng.choice([bytes([0x80 | cnt]), b"\xde" + cnt.to_bytes(2, "big"), b"\xdf" + cnt.to_bytes(4, "big")])
+                return hd + b"".join(bytes([0xa0 | len(k)]) + k + mp(v) for k, v in n[1])
+
+            fmt = rng.choice("jm")
+            txt = js(node) if fmt == "j" else mp(node)
+            for L in sorted({max(0, d - 1), d, d + 1, rng.choice([0, 1, 2, 3, 10])}):
+                flt = rng.choice(["-"] + [hx(x) for x in filters])
+                cases.append(Case("depth %s %d %d %s %s" % (fmt, cb, L, flt, hx(txt)), L=L, d=d, kind=8, fmt=fmt, closed=True, flt=flt))
         return cases
 
     def canon_h(self, case, h):
@@ -1205,6 +1260,8 @@ class DepthSuite(Suite):
         out = []
         ref = {}
         rows = []
+        bushy = []
+        chainmax = {}
         for c, h in zip(cases, ho):
             if is_crash(h):
                 continue
@@ -1214,12 +1271,22 @@ class DepthSuite(Suite):
                 continue
             stack = int(st[0][6:])
             key = (c.meta["L"], c.meta["kind"], c.meta["flt"])
+            if c.meta["kind"] == 8:
+                bushy.append((c, stack))
+                continue
             rows.append((key, c, stack))
+            chainmax[(c.meta["fmt"], c.meta["L"])] = max(chainmax.get((c.meta["fmt"], c.meta["L"]), 0), stack)
             if c.meta["d"] in (c.meta["L"] + 1, c.meta["L"] + 2):
                 ref[key] = max(ref.get(key, 0), stack)
         for key, c, stack in rows:
             if key in ref and stack > ref[key] + 1024:
                 out.append(("depth:stack", "limit %d: an input of depth %d uses %d bytes of stack, one of depth L+1/L+2 uses %d" % (key[0], c.meta["d"], stack, ref[key]), c))
+        # bushy documents under limit L never use more stack than the deepest chains under the next larger limit of the chain series
+        for c, stack in bushy:
+            bigger = sorted(L2 for (fm, L2) in chainmax if fm == c.meta["fmt"] and L2 >= c.meta["L"])
+            if bigger and stack > chainmax[(c.meta["fmt"], bigger[0])] + 1024:
+                out.append(("depth:stack", "limit %d: a document of depth %d with many siblings uses %d bytes of stack, the deepest chains under limit %d use %d" %
+                            (c.meta["L"], c.meta["d"], stack, bigger[0], chainmax[(c.meta["fmt"], bigger[0])]), c))
         return out
 
     def feature(self, case, h):
@@ -2002,14 +2069,20 @@ class StringKindSuite(HistSuite):
         nh = getattr(self, "nh", 25 if tier == "quick" else 800)
         for _ in range(nh):
             seed = rng.getrandbits(40)
-            nul_ok = rng.random() < 0.4
-            # zero-terminated kinds (char*, linked const char*) cannot carry a NUL: they take part only in NUL-free histories
-            kinds = ["sc", "sv", "sj"] if nul_ok else ["sc", "sv", "sp", "sj", "sjl"]
-            for k in kinds:
+            nul_ok = rng.random() < 0.5
+            # zero-terminated kinds (char*, linked const char*) cannot carry a NUL: in histories with NUL bytes those strings go through std::string
+            for k in ["sc", "sv", "sp", "sj", "sjl"]:
                 r2 = _random.Random(seed)
                 ops, exp = H.gen_history(r2, 50, geo_of(self.cfg), strkind=k, nul_ok=nul_ok)
                 for o, e in zip(ops, exp):
-                    cases.append(Case(o, exp=e, kind=k, seed=seed))
+                    f = o.split(" ")
+                    if f[0] in ("mem", "memw", "setm", "remk"):
+                        # the key is passed through the same source kind (harness only: the model has one kind of key)
+                        key = bytes.fromhex(f[{"mem": 3, "memw": 3, "setm": 2, "remk": 2}[f[0]]].replace("-", ""))
+                        kk = "sc" if (k in ("sp", "sjl") and b"\x00" in key) else k
+                        cases.append(Case(o + " " + kk, exp=e, kind=k, seed=seed))
+                    else:
+                        cases.append(Case(o, exp=e, kind=k, seed=seed))
         return cases
 
     def post(self, cases, ho):
@@ -2049,7 +2122,15 @@ class LimitSuite(HistSuite):
                 ops.append("add 1 i %d" % i)
                 if i % 64 == 0 or i >= limit - 3:
                     ops.append("obs 0 1")
-            ops += ["obs 0 1", "remi 1 0", "remi 1 0", "obs 0 1", "add 1 i 777", "add 1 sc 6162", "obs 0 1", "cleardoc 0", "obs 0", "root 0 0", "add 0 i 1", "obs 0", "cleardoc 0", "ledger"]
+            ops += ["obs 0 1", "remi 1 0", "remi 1 0", "obs 0 1", "add 1 i 777", "add 1 sc 6162", "obs 0 1", "cleardoc 0", "obs 0", "root 0 0", "add 0 i 1", "obs 0"]
+            # the cleared document grows past its built-in pools again (twice: through clear() and through to<JsonArray>())
+            refill = geo[0] * geo[1] + geo[0] + 2
+            for rnd_ in range(2):
+                ops += ["cleardoc 0", "root 0 0", "toarr 1 0"] if rnd_ == 0 else ["toarr 1 0"]
+                for i in range(refill):
+                    ops.append("add 1 i %d" % (i * 3))
+                ops += ["obs 0 1"]
+            ops += ["cleardoc 0", "ledger"]
             for o in ops:
                 cases.append(Case(o, exp=None, limit=limit))
         cases += self.refcount_cases(geo)
